@@ -74,6 +74,8 @@ type Sched struct {
 	// Adopt is asked when an unknown goroutine reaches a hook point: it returns
 	// the identity the goroutine gets, or ok=false to leave it unscheduled.
 	Adopt func(point string) (id int, name string, ok bool)
+	// Pending reports that the controller still expects an adoption: no quiescence before.
+	Pending func() bool
 }
 
 func (s *Sched) threads() []*Thread {
@@ -165,11 +167,19 @@ func waitState(st string) bool {
 // seen in sync.Mutex.Lock in three snapshots at least a millisecond apart.
 const mutexSeenNeeded = 3
 
-// transient reports a state an unscheduled goroutine passes through on its
-// way to its first hook.
-func transient(st string) bool {
+// idleState reports a state in which a goroutine the run does not schedule certainly waits
+// for somebody else (a channel, a timer, the poller, a GC phase that is not running).  ANY
+// other state of such a goroutine -- runnable, running, preempted, copystack, GC assist,
+// a mutex -- means it may be on its way to its first hook (a goroutine the code under test
+// has just spawned): the system is then NOT quiescent.  (The first version listed the busy
+// states instead; "preempted" and "GC assist wait" were missing from it, and on a heavily
+// loaded machine a just-spawned walker / sender was overlooked: the run was declared over
+// before the subscriber's walk had begun.)
+func idleState(st string) bool {
 	switch st {
-	case "running", "runnable", "sync.Mutex.Lock", "sync.RWMutex.RLock", "sync.RWMutex.Lock", "semacquire":
+	case "select", "select (no cases)", "chan receive", "chan send", "chan receive (nil chan)", "chan send (nil chan)",
+		"sleep", "IO wait", "syscall", "finalizer wait", "force gc (idle)", "GC sweep wait", "GC scavenge wait",
+		"GC worker (idle)", "sync.Cond.Wait", "sync.WaitGroup.Wait", "trace reader (blocked)", "debug call", "idle", "dead":
 		return true
 	}
 	return false
@@ -376,6 +386,11 @@ func (s *Sched) Step(t *Thread) []Event {
 				}
 			}
 		}
+		if quiet && s.Pending != nil && s.Pending() {
+			// positive evidence is still missing: a goroutine the released thread must have
+			// spawned has not reported at its first hook yet
+			quiet = false
+		}
 		if quiet {
 			// a goroutine the code under test has just spawned and that has not
 			// reached its first hook yet is still runnable: not quiescent
@@ -387,7 +402,7 @@ func (s *Sched) Step(t *Thread) []Event {
 				if _, known := s.byGoid[g]; known {
 					continue
 				}
-				if transient(st) {
+				if !idleState(st) {
 					quiet = false
 				}
 			}
